@@ -437,6 +437,9 @@ for _id, _prop, _rule, _desc, _eb in [
     ("c15-cache-suffix", "C15", "R15.1", "validated path cache (C16g/1) composes <name><ext>.tmp", False),
     ("c15-cache-weak-test", "C15", "R15.1", "validated path cache (C16g/1) whose skip test does not compare the extension", True),
     ("c18-memo-no-invalidation", "C18", "R18.1", "BlockIndexMap memo (C18g/2) that set() does not invalidate", True),
+    ("c18-remapper-stores-key", "C18", "R18.2", "BlockIndexRemapper look-aside (C18k/2) that remembers found->first, the old index, as the translation", False),
+    ("c18-remap-takes-key", "C18", "R18.2", "cdns-merge pass 2 assigning new_index->first (the block's old index) instead of the mapped value", False),
+    ("c18-remapper-key-not-compared", "C18", "R18.1", "BlockIndexRemapper look-aside (C18k/2) that reuses the remembered pair for any key", True),
     ("c19-memo-not-reset", "C19", "R19.2", "ip-address lookup memo (C12g/3) that CdnsBlock::operator= does not reset", False),
     ("c16-guard-armed-early", "C16", "R16.6", "BlockClearGuard (C12g/2) armed before the write it guards", False),
     ("c16-guard-armed-early-c12", "C12", "R12.4", "BlockClearGuard (C12g/2) armed before the write it guards", False),
@@ -479,8 +482,6 @@ NEUTRAL_UNRECOGNISED = {
     # a new encoder primitive that writes a whole index list in runs whose length is computed from m_avail by a division: the
     # emission grammar does not know the primitive and R06.2 does not decide the computed reservation - C01, C02, C06 exit 2
     # (neutral round 9)
-    # cdns-merge's index table behind a BlockIndexRemapper class with a one-entry look-aside: R18.1 / R18.2 do not expand translate()
-    "C18k/refactor2.diff": "BlockIndexRemapper with a look-aside in cdns-merge",
     "C10j/refactor1.diff": "CdnsEncoder::write_array in runs sized by m_avail / MAX_INDEX_SIZE",
     # (same primitive as a template for the preamble's code lists: R06.2 proves the run reservation, the emission grammar of C02 /
     # C09 does not know the primitive - exit 2 there)
